@@ -3,6 +3,7 @@
 import json, sys
 pid = sys.argv[1]
 variant = sys.argv[2] if len(sys.argv) > 2 else ""
+hint = sys.argv[3] if len(sys.argv) > 3 else ""
 for l in open('/verif/properties.jsonl'):
     p = json.loads(l)
     if p['id'] == pid:
@@ -11,6 +12,7 @@ else:
     sys.exit("no such property")
 wt = f"/tmp/wt/{pid}{variant}"
 out = f"/tmp/seed_out/{pid}{variant}"
+hint = (hint + "\n") if hint else ""
 print(f"""You are helping to evaluate a test oracle for the Rust crate `cucumber` (cucumber-rs: a Cucumber/Gherkin BDD test framework). You have your own scratch git worktree of the crate at {wt} (a checkout of the pinned commit; it builds offline; a pre-warmed build directory is at {wt}/target). Work ONLY inside {wt} and {out}. Never touch /repo or /verif, and do not read anything under /verif. There is no network: always pass --offline to cargo.
 
 The crate is supposed to satisfy this semantic property:
@@ -25,6 +27,7 @@ Your task: make ONE realistic source change to the crate (under {wt}/src or {wt}
   (c) the breakage needs something specific to manifest - a particular interleaving/completion order of concurrently running scenarios, a fault at a particular point, a multi-step sequence, an unusual input or configuration, or two cooperating sites that each look fine alone - NOT something ordinary use would expose at once,
   (d) it looks like a plausible mistake a maintainer could make in a refactoring or "optimisation" (an off-by-one, a dropped condition, a wrong order of two operations, a missed case), a few lines at most; do not add comments pointing at the bug.
 
+{hint}
 Then write a demonstration: a small integration test or program (for example a new file under {wt}/tests/ using the crate's public API, or a tiny binary crate under {out}/demo depending on the crate by path) that FAILS with your change and PASSES on the unmodified code. Verify both directions yourself (use `git stash` / `git stash pop` or `git diff > patch; git checkout -- src` to flip).
 
 Deliver, in {out}/:
